@@ -116,7 +116,16 @@ def handle (j : Json) : Except String Json := do
     match oracleMisses rxT pats ("" :: ctxStrings env.ctx) with
     | m :: _ => throw s!"regex oracle has no entry for pattern {m.1} subject {m.2}"
     | [] => pure ()
-    let o := evaluate env f
+    -- The model evaluates with the tables ITS preprocessing builds from the data of each item that
+    -- carries tables, not with the ones the real code built and dumped: a table that does not belong
+    -- to the values beside it (kept from an earlier state of the value, built from other operands)
+    -- must show as a different evaluation, under every property, not only as `preOK = false`.
+    let freshF (g : Flag) : Flag := if flagHasTables g then preprocessFlag rx (stripFlag g) else g
+    let freshS (s : Segment) : Segment := if segmentHasTables s then preprocessSegment rx (stripSegment s) else s
+    let envFresh : Env := { env with store := { env.store with
+      flags := env.store.flags.map (fun p => (p.1, freshF p.2)),
+      segments := env.store.segments.map (fun p => (p.1, freshS p.2)) } }
+    let o := evaluate envFresh (freshF f)
     let goJ := fldD j "go"
     -- the preprocessed tables the real code built (they travel with the case and the model evaluates
     -- with them) must be the ones the model's own preprocessing builds from the same data
@@ -172,13 +181,16 @@ def handle (j : Json) : Except String Json := do
     return Json.mkObj [("out", Json.mkObj [("a", semverOut a), ("b", semverOut b), ("cmp", cmp)])]
   else if kind == "clause" then
     let c ← Wire.ctx (← fld j "ctx")
-    let cl ← clause (← fld j "clause")
+    let cl0 ← clause (← fld j "clause")
+    -- as for evaluations: tables recomputed by the model from the clause's own values
+    let cl := if clauseHasTables cl0 then { cl0 with pre := preprocessClause rx (stripClause cl0) } else cl0
     match clauseMatchNoSeg rx c cl with
     | .ok b => return Json.mkObj [("out", Json.mkObj [("match", b), ("err", Json.null)])]
     | .error e => return Json.mkObj [("out", Json.mkObj [("match", false), ("err", logClassOut e.logClass)])]
   else if kind == "accessor" then
     -- the exported accessors with an arbitrary index and possibly a nil clause
-    let cl ← clause (← fld j "clause")
+    let cl0 ← clause (← fld j "clause")
+    let cl := if clauseHasTables cl0 then { cl0 with pre := preprocessClause rx (stripClause cl0) } else cl0
     let i := intD j "idx"
     let isNil := boolD j "nil"
     let v ← jval (fldD j "v")
